@@ -124,7 +124,7 @@ def codec_graph(ctx, role, inst, variant=""):
         raise ToolError("MC_Codec %s violated %s on its own:\n%s" % (cfg, res["violated"], res["out"][-3000:]))
     ctx.add_model("MC_Codec/" + cfg, res)
     kind0 = "default" if inst == "rate" else "rs"
-    scale = 64 if "x64" in variant else 1
+    scale = 64 if "x64" in variant else (8192 if "x8192" in variant else 1)
     g = graphmod.build(res["out"], role, kind0, [2, 1, 64 * scale])
     path = ctx.path("graph_%s_%s%s.json" % (role, inst, variant))
     json.dump(g, open(path, "w"))
@@ -384,9 +384,10 @@ def check_C12(ctx):
 
 
 def check_C17(ctx):
-    ctx.rule = ("walks over the graph with 64x larger shards, a counting allocator armed around every call; Trace_Codec carries the history variable "
-                "`held` (largest working-space need since the work space was created) and rejects a call that allocates at least one shard's worth of "
-                "memory, or moves the buffer, although the configuration needs no more than is held. distinct = distinct edges covered")
+    ctx.rule = ("walks over the graph with 8192x larger shards (16 KiB .. 1 MiB), a counting allocator armed around every call; Trace_Codec carries the history "
+                "variable `held` (largest working-space need since the work space was created) and rejects a call that moves the buffer, or - decided on shards "
+                "of at least 400 000 bytes, beyond any constant-size scratch a codec could want - allocates at least one shard's worth of memory, although the "
+                "configuration needs no more than is held. distinct = distinct edges covered")
     ctx.assumptions = CODEC_ASSUME + ["allocations are observed through a counting global allocator (thread-local, armed around the call only)",
                                       "tables are forced before the measured region (first decode lazily initialises LOG_WALSH: not working space)"]
     if ctx.replay:
@@ -394,7 +395,7 @@ def check_C17(ctx):
     covered = 0
     walks, length = (3000, 120) if ctx.thorough else (300, 50)
     for role in ("enc", "dec"):
-        gp, nn, ne = codec_graph(ctx, role, "rate", "_x64")
+        gp, nn, ne = codec_graph(ctx, role, "rate", "_x8192")
         tr = ctx.path("alloc_%s.trace" % role)
         info = replay(ctx, gp, "walks", walks=walks, length=length, trace=tr, alloc=True, engines=["naive", "default", "nosimd"], threads=6)
         covered += info["edges_covered"]
